@@ -224,6 +224,65 @@ pub fn vf_keys_below(m: &HashMap<usize, StackObjectRef>, bound: usize) -> (r: Ve
         r@.no_duplicates(),
         forall|k: usize| r@.contains(k) <==> (m@.dom().contains(k) && k < bound),
 { unimplemented!() }
+/// C07: the canonical enumeration of a key set -- the unique ascending duplicate-free sequence with
+/// exactly these elements.  Whatever order the hash map yields its keys in, the sorted vector is this.
+pub open spec fn is_canon(s: Seq<usize>, dom: Set<usize>) -> bool {
+    sorted_asc(s) && forall|k: usize| s.contains(k) <==> dom.contains(k)
+}
+pub proof fn lemma_canon_unique(a: Seq<usize>, b: Seq<usize>, dom: Set<usize>)
+    requires is_canon(a, dom), is_canon(b, dom)
+    ensures a =~= b
+    decreases a.len()
+{
+    if a.len() == 0 {
+        if b.len() > 0 { assert(b.contains(b[0])); assert(a.contains(b[0])); }
+    } else if b.len() == 0 {
+        assert(a.contains(a[0])); assert(b.contains(a[0]));
+    } else {
+        // the largest element is last in both
+        let la = a.last(); let lb = b.last();
+        assert(a.contains(la)); assert(b.contains(lb));
+        assert(b.contains(la)); assert(a.contains(lb));
+        let i = choose|i: int| 0 <= i < b.len() && b[i] == la;
+        let j = choose|j: int| 0 <= j < a.len() && a[j] == lb;
+        assert(la <= lb) by { if i < b.len() - 1 { assert(b[i] < b[b.len() - 1]); } }
+        assert(lb <= la) by { if j < a.len() - 1 { assert(a[j] < a[a.len() - 1]); } }
+        let dom2 = dom.remove(la);
+        let a2 = a.drop_last(); let b2 = b.drop_last();
+        assert(is_canon(a2, dom2)) by {
+            assert forall|k: usize| a2.contains(k) <==> dom2.contains(k) by {
+                if a2.contains(k) {
+                    let t = choose|t: int| 0 <= t < a2.len() && a2[t] == k;
+                    assert(a[t] == k); assert(a[t] < a[a.len() - 1]); assert(a.contains(k));
+                }
+                if dom2.contains(k) {
+                    assert(a.contains(k));
+                    let t = choose|t: int| 0 <= t < a.len() && a[t] == k;
+                    assert(t < a.len() - 1); assert(a2[t] == k);
+                }
+            }
+        }
+        assert(is_canon(b2, dom2)) by {
+            assert forall|k: usize| b2.contains(k) <==> dom2.contains(k) by {
+                if b2.contains(k) {
+                    let t = choose|t: int| 0 <= t < b2.len() && b2[t] == k;
+                    assert(b[t] == k); assert(b[t] < b[b.len() - 1]); assert(b.contains(k));
+                }
+                if dom2.contains(k) {
+                    assert(b.contains(k));
+                    let t = choose|t: int| 0 <= t < b.len() && b[t] == k;
+                    assert(t < b.len() - 1); assert(b2[t] == k);
+                }
+            }
+        }
+        lemma_canon_unique(a2, b2, dom2);
+        assert(a =~= a2.push(la)); assert(b =~= b2.push(lb));
+    }
+}
+pub open spec fn canon(dom: Set<usize>) -> Seq<usize> {
+    choose|s: Seq<usize>| is_canon(s, dom)
+}
+
 pub open spec fn sorted_asc(s: Seq<usize>) -> bool {
     forall|i: int, j: int| 0 <= i < j < s.len() ==> s[i] < s[j]
 }
